@@ -55,6 +55,29 @@ def penalizeMat (A : Nat → Nat → K) (D : List Nat) (epsInv : K) : Nat → Na
 def penalizeRhs (b x : Nat → K) (D : List Nat) (epsInv : K) : Nat → K :=
   fun i => if D.contains i then x i * epsInv else b i
 
+/-! ### multipoint constraints (`mpc`): `x[S] = T x[M] + g` -/
+
+/-- entry `(p, q)` of the reduced matrix
+    `[[A_UU, A_UM + A_US T], [A_MU, A_MM + A_MS T]]`; rows/columns run over `U ++ M` -/
+def mpcMat (A : Nat → Nat → K) (U M S : List Nat) (T : Nat → Nat → K) (p q : Nat) : K :=
+  let r := (U ++ M).getD p 0
+  let c := (U ++ M).getD q 0
+  A r c + (if q < U.length then 0 else
+    ((List.range S.length).map (fun s => A r (S.getD s 0) * T s (q - U.length))).sum)
+
+/-- reduced right-hand side `[b_U - A_US g, b_M - A_MS g]` -/
+def mpcRhs (A : Nat → Nat → K) (b : Nat → K) (U M S : List Nat) (g : Nat → K) (p : Nat) : K :=
+  let r := (U ++ M).getD p 0
+  b r - ((List.range S.length).map (fun s => A r (S.getD s 0) * g s)).sum
+
+/-- the expansion `x[concat(U, M, S)] = concat(w, T w_M + g)` as a function of the global index:
+    position lookup in `U ++ M`, else in `S` -/
+def mpcExpand (U M S : List Nat) (T : Nat → Nat → K) (g : Nat → K) (w : Nat → K) (i : Nat) : K :=
+  if (U ++ M).contains i then w ((U ++ M).idxOf i)
+  else if S.contains i then
+    ((List.range M.length).map (fun j => T (S.idxOf i) j * w (U.length + j))).sum + g (S.idxOf i)
+  else 0
+
 /-! ### CSR layer of `enforce` -/
 
 structure CSR (K : Type) where
